@@ -84,6 +84,10 @@ func checkSeq(ctx *pbt.Ctx, c Seq) error {
 	}
 	eng := interpreter.NewEngine()
 	kinds := map[string]bool{}
+	// the option values are built once per case and handed to every run that needs them
+	pool := libexec.NewOptPool()
+	libexec.SetPool(pool)
+	defer libexec.SetPool(nil)
 	runOn := libexec.RunOn
 	if c.Shared {
 		runOn = (&libexec.Reuse{}).RunOn
@@ -126,6 +130,9 @@ func checkSeq(ctx *pbt.Ctx, c Seq) error {
 			kinds["pre"] = true
 		}
 		ctx.Label("level=" + p.Level)
+	}
+	if pool.Shared > 0 {
+		ctx.Label("option value used by more than one run")
 	}
 	ctx.Labelf("runs=%d", len(c.Progs))
 	if kinds["accept"] && kinds["reject"] {
